@@ -34,14 +34,19 @@ J07(T) == ("C07" \in Props /\ Ok(T)) =>
   /\ (GapProvenance(T) \/ Say(T, "C07.gap_provenance", Cls(T)))
   /\ (NonNeighboursUseJoinGap(T) \/ Say(T, "C07.non_neighbours_use_join_gap", Cls(T)))
   /\ Count(5, Len(AllJunctions(T.out)))
+\* (detail of a C08 report: does some scaffold's last contig lie wholly beyond the end of what the map shows of it?  That needs a last contig no
+\*  longer than floor(t) + 1 bases on a scaffold whose texel count was rounded down by exactly that much)
+LastBeyond(T) == \E g \in 1..Len(T.map) : LET pc == T.map[g].pieces[1]  rows == Src(T, pc.src).rows  fr == Frags(rows) IN
+                    fr # <<>> /\ IsFrag(rows[Len(rows)]) /\ SumLen(rows) - RowLen(fr[Len(fr)]) + 1 > pc.b
+Cls08(T) == IF LastBeyond(T) THEN "last-contig-beyond-map-end" ELSE Cls(T)
 J08(T) == ("C08" \in Props /\ IsNullMap(T) /\ NullPre(T)) =>
   /\ Count(6, 1)
-  /\ (NullMapIdentity(T) \/ Say(T, "C08.null_map_identity", Cls(T) \o "/" \o T.status))
-  /\ (NullMapStatsZero(T) \/ Say(T, "C08.null_map_stats_zero", Cls(T)))
+  /\ (NullMapIdentity(T) \/ Say(T, "C08.null_map_identity", Cls08(T) \o "/" \o T.status))
+  /\ (NullMapStatsZero(T) \/ Say(T, "C08.null_map_stats_zero", Cls08(T)))
 J08p(T) == ("C08" \in Props /\ IsPaintedNullMap(T) /\ NullPre(T)) =>
   /\ Count(6, 1)
-  /\ (PaintedNullMapContentEqual(T) \/ Say(T, "C08.painted_null_map_content_equal", Cls(T) \o "/" \o T.status))
-  /\ (NullMapStatsZero(T) \/ Say(T, "C08.null_map_stats_zero", Cls(T)))
+  /\ (PaintedNullMapContentEqual(T) \/ Say(T, "C08.painted_null_map_content_equal", Cls08(T) \o "/" \o T.status))
+  /\ (NullMapStatsZero(T) \/ Say(T, "C08.null_map_stats_zero", Cls08(T)))
 J09(T) == ("C09" \in Props /\ Ok(T)) =>
   /\ Count(3, Cardinality({x \in AllPieces(T) : Core(T, T.map[x[1]].pieces[x[2]]) # <<>> /\ Len(T.map[x[1]].pieces[x[2]].tags) > 0}))
   /\ (RoutedByTag(T) \/ Say(T, "C09.routed_by_tag", Cls(T)))
